@@ -675,6 +675,9 @@ func (r *Runner) optionalRead(e *MEntry, k int, log []HookCall) {
 // checkHooks validates, for custom calculators, that the hooks consulted for a
 // write are the documented ones.
 func (r *Runner) checkHooks(log []HookCall, k, v int, wantExp, wantRef string) error {
+	if r.Facets&FDeadline == 0 {
+		return nil // not judged here; the model keeps the specified deadlines (see cmpEntry)
+	}
 	if r.Cfg.Expiry == ExpCustom && wantExp != "" {
 		found := false
 		for _, h := range log {
@@ -1001,7 +1004,7 @@ func (r *Runner) Step(i int, a *Action) (err error) {
 			return err
 		}
 		log := r.takeHooks()
-		if a.Op == "getentryquietly" && len(log) > 0 {
+		if a.Op == "getentryquietly" && len(log) > 0 && r.Facets&FDeadline != 0 {
 			return r.fail(FDeadline, "GetEntryQuietly consulted a calculator: %+v", log[0])
 		}
 		if a.Op == "getentry" {
@@ -1525,6 +1528,12 @@ func (r *Runner) cmpEntry(op string, k int, e *MEntry, g otter.Entry[int, int]) 
 	}
 	if g.SnapshotAtNano != snap {
 		return r.fail(FRet, "%s(%d): SnapshotAtNano %d, want %d", op, k, g.SnapshotAtNano, snap)
+	}
+	if r.Facets&FDeadline == 0 {
+		// The property under judgement does not judge the deadlines themselves. The model keeps the deadlines the
+		// specification prescribes, so that what follows from a wrong deadline in the cache (an entry visible for too
+		// long, an early Expiration) is still judged - against the specification, not against the cache's own clockwork.
+		return nil
 	}
 	if r.Cfg.Expiry == ExpNone {
 		if g.ExpiresAtNano != math.MaxInt64 {
